@@ -20,6 +20,8 @@ import KafkaVerif.Lemmas.ReaderSystem
 import KafkaVerif.Lemmas.ByteReader
 import KafkaVerif.Lemmas.BufVarInt
 import KafkaVerif.Lemmas.ByteHeader
+import KafkaVerif.Lemmas.ByteLocal
+import KafkaVerif.Lemmas.ByteWalk
 
 namespace KV.C02
 
@@ -283,10 +285,86 @@ theorem header_bytes (c : Nat) (hc : c < RW.M32) :
       ∀ x, readH2 (encH2 c f ++ x)
         = some (⟨f.baseOffset, f.lastOffsetDelta, f.firstTs, f.count, f.attributes, f.payload.length⟩, x)) ∧
     (∀ m : Spec.RB.Msg, m.WF →
-      BR.AllOrShort BR.readHeaderB (encH1 c m) (.v1 ⟨m.offset, m.magic, m.attributes, (encB1 m).length⟩) ∧
+      BR.AllOrShort BR.readHeaderB (encH1 c m) (.v1 ⟨m.offset, m.magic, m.attributes, (encB1 m).length⟩ m.ts) ∧
       ∀ x, readH1 (encH1 c m ++ x) = some (⟨m.offset, m.magic, m.attributes, (encB1 m).length⟩, x)) :=
   ⟨fun f hf => ⟨BR.readHeaderB_v2 c f hf, fun x => readH2_encH2 c hc f hf x⟩,
    fun m hm => ⟨BR.readHeaderB_v1 c m hm, fun x => readH1_encH1 c hc m hm x⟩⟩
+
+/-- `reads_within_remain`: no byte-level read of the decoder looks at or consumes a byte beyond `remain`, the unread part
+of the current message set.  `BR.Local p`: on two connections that agree on the next `remain` bytes (and hold at least
+that many) `p` returns the same value or error, hands back the same `remain` and has consumed the same number of bytes,
+at most `remain` — what follows the set on the connection (the next response) is invisible.  Holds for `readHeader`,
+the record part of `readMessageV2`, and the three bodies of `readMessageV1` (read, skipped, wrapper); by composition
+(`local_bind`, `local_guard`) from `readInt`, `readVarInt`, `readNewBytes`, `discardN`. -/
+theorem reads_within_remain :
+    BR.Local BR.readHeaderB ∧ BR.Local BR.readRecordV2 ∧ BR.Local BR.readBodyV1 ∧ BR.Local BR.skipBodyV1 ∧
+    BR.Local BR.readWrapV1 :=
+  ⟨BR.local_readHeaderB, BR.local_readRecordV2, BR.local_readBodyV1, BR.local_skipBodyV1, BR.local_readWrapV1⟩
+
+/-- `cut_then_next_response`: the "cut" clauses of `header_bytes`, `record_bytes`, `message_bytes` about the situation on a
+real connection: the broker cut the message set inside a batch header / a record / key + value of a message (only the
+first `remain` bytes of it belong to the set) and the connection goes on with `Y`, the next response.  The reader fails
+with errShortRead and has not consumed more than what was left of the set. -/
+theorem cut_then_next_response (Y : Bytes) (remain : Nat) :
+    (∀ (c : Nat) (f : Spec.RB.FrameV2), f.WF → remain < (encH2 c f).length →
+      ∃ r', BR.readHeaderB ⟨(encH2 c f).take remain ++ Y, remain⟩ = .error (.short, r') ∧ r'.remain ≤ remain) ∧
+    (∀ rec : Spec.RB.RecV2, remain < (Spec.RB.encRec rec).length →
+      ∃ r', BR.readRecordV2 ⟨(Spec.RB.encRec rec).take remain ++ Y, remain⟩ = .error (.short, r') ∧ r'.remain ≤ remain) ∧
+    (∀ m : Spec.RB.Msg, RW.InRange RW.M32 (Spec.RB.optLen m.key : Int) → RW.InRange RW.M32 (Spec.RB.optLen m.value : Int) →
+      remain < (encB1 m).length →
+      ∃ r', BR.readBodyV1 ⟨(encB1 m).take remain ++ Y, remain⟩ = .error (.short, r') ∧ r'.remain ≤ remain) :=
+  ⟨fun c f hf h => BR.cut_is_short (BR.readHeaderB_v2 c f hf) BR.local_readHeaderB Y remain h,
+   fun rec h => BR.cut_is_short (BR.readRecordV2_spec rec) BR.local_readRecordV2 Y remain h,
+   fun m hk hv h => BR.cut_is_short (BR.readBodyV1_spec m hk hv) BR.local_readBodyV1 Y remain h⟩
+
+/-- `walk_bytes`: **bytes → tokens as one theorem about the Go reads**, for message sets of uncompressed v2 batches and
+uncompressed v0 / v1 messages in any order.  `BR.walk` (Model/ByteWalk.lean) strings the byte-level statements together
+the way the decoder runs them over a message set: `readHeaderB` (readHeader field by field, `switch magic`), then
+`count` × `readRecordV2` (the record part of readMessageV2) resp. `readBodyV1` (key and value in readMessageV1), each
+with `remain` = what is left of the set; errShortRead ends it.  On the reference encoding of any such list of items,
+cut at any byte `n`, it emits exactly `truncate (tokens of the layout) n` — the token stream `single_fetch` is about,
+and the one `tokenize` produces.  Uses `header_bytes` / `record_bytes` / `message_bytes` for the parts that are complete
+and `reads_within_remain` for the part the cut goes through.  `dgv` / `dgm` digest a record / message as the Go code
+holds it, `c.dg2` / `c.dg1` as the log stores it; `hdg`, `hdm`: they agree. -/
+theorem walk_bytes (dgv : Int → BR.RecView → Nat) (dgm : H1 → Int → Option Bytes → Option Bytes → Nat) (c : TokCfg)
+    (enc : Int → Bytes → Bytes) (hdg : ∀ fts r, dgv fts (BR.viewOf r) = c.dg2 fts r)
+    (hdm : ∀ m : Spec.RB.Msg, m.WF → dgm ⟨m.offset, m.magic, m.attributes, (encB1 m).length⟩ m.ts m.key m.value = c.dg1 m)
+    (its : List BItem) (hits : ∀ it ∈ its, it.WF c enc ∧ BR.PlainItem it) (n : Nat) :
+    BR.walk dgv dgm (n + 1) .hdr ((encItems c enc its).take n) = truncate (allTokens (layoutOfItems c enc its)) n :=
+  BR.walk_items dgv dgm c enc hdg hdm its hits n (n + 1) (by omega)
+
+/-- the walk and the tokenizer agree (on everything the walk covers) -/
+theorem walk_eq_tokenize (dgv : Int → BR.RecView → Nat) (dgm : H1 → Int → Option Bytes → Option Bytes → Nat) (c : TokCfg)
+    (enc : Int → Bytes → Bytes) (hdec : ∀ k b, c.dec k (enc k b) = some b) (hpos : ∀ k b, 0 < (enc k b).length)
+    (h1 : ∀ b, c.crcs.ieee b < RW.M32) (h2 : ∀ b, c.crcs.castagnoli b < RW.M32)
+    (hdg : ∀ fts r, dgv fts (BR.viewOf r) = c.dg2 fts r)
+    (hdm : ∀ m : Spec.RB.Msg, m.WF → dgm ⟨m.offset, m.magic, m.attributes, (encB1 m).length⟩ m.ts m.key m.value = c.dg1 m)
+    (its : List BItem) (hits : ∀ it ∈ its, it.WF c enc ∧ BR.PlainItem it) (n : Nat) :
+    BR.walk dgv dgm (n + 1) .hdr ((encItems c enc its).take n) = tokenize c (n + 1) .hdr ((encItems c enc its).take n) := by
+  rw [walk_bytes dgv dgm c enc hdg hdm its hits n,
+    tokenize_items c enc hdec hpos h1 h2 its (fun it h => (hits it h).1) n (n + 1) (by omega)]
+
+/-- `single_fetch_walk`: `single_fetch` with the tokens read off the bytes by the Go statements (`BR.walk`) instead of
+given: for any log of uncompressed v2 batches and v0 / v1 messages in its reference encoding (holes, empty batches, items
+beginning before the start offset: whatever `LWF` admits), cut at any byte, any start offset — the decoder delivers
+exactly the stored records at or above `o` that lie completely within the first `n` bytes, never desynchronises, never
+jumps over a stored record. -/
+theorem single_fetch_walk (dgv : Int → BR.RecView → Nat) (dgm : H1 → Int → Option Bytes → Option Bytes → Nat) (c : TokCfg)
+    (enc : Int → Bytes → Bytes) (hdg : ∀ fts r, dgv fts (BR.viewOf r) = c.dg2 fts r)
+    (hdm : ∀ m : Spec.RB.Msg, m.WF → dgm ⟨m.offset, m.magic, m.attributes, (encB1 m).length⟩ m.ts m.key m.value = c.dg1 m)
+    (its : List BItem) (hits : ∀ it ∈ its, it.WF c enc ∧ BR.PlainItem it)
+    (nb : Int) (hnb : 0 ≤ nb) (hwf : LWF nb (layoutOfItems c enc its))
+    (o hwm : Int) (ho : 0 ≤ o) (hsafe : Safe o (layoutOfItems c enc its)) (hne : hwm ≠ o) (expired : Bool) (n : Nat) :
+    let toks := BR.walk dgv dgm (n + 1) .hdr ((encItems c enc its).take n)
+    (readAll .fixed expired o hwm toks).1 = (contained (layoutOfItems c enc its) n).filter (fun r => o ≤ r.1) ∧
+    (readAll .fixed expired o hwm toks).2.2 ≠ .desync ∧
+    (∀ r ∈ allRecords (layoutOfItems c enc its), o ≤ r.1 → r.1 < (readAll .fixed expired o hwm toks).2.1 →
+      r ∈ (readAll .fixed expired o hwm toks).1) := by
+  have h := single_fetch (layoutOfItems c enc its) nb hnb hwf o hwm ho hsafe hne (n : Int) expired
+  have hc : ¬ ((n : Int) < 0) := by omega
+  simp only [responseTokens, containedRecords, hc, if_false, Int.toNat_natCast] at h
+  simp only [walk_bytes dgv dgm c enc hdg hdm its hits n]
+  exact ⟨h.1, h.2.1, h.2.2.1⟩
 
 /-- `varint_refill`: the byte-level theorems above know a reader as the bytes it can still deliver.  The one function of
 read.go whose control flow depends on where the *buffered* bytes end is `readVarInt` (the fixed-width readers use
